@@ -460,6 +460,15 @@ class Analyzer:
 
     # ---- READS-rng ------------------------------------------------------------------------------------------------------------------
     def reads_rng(self, cls, where, fdef, file):
+        # a default-argument expression is evaluated once, when the module is imported: a draw there happens before any task
+        # seed is applied and is shared by every later call
+        for d in list(fdef.args.defaults) + [k for k in fdef.args.kw_defaults if k is not None]:
+            for node in ast.walk(d):
+                if isinstance(node, ast.Call):
+                    path = _root(node.func)
+                    if "random" in path or path[-1:] in (["choice"], ["uniform"], ["normal"], ["randint"], ["rand"], ["randn"]):
+                        self.add("READS-rng", cls, where, node, ast.unparse(node)[:70], False,
+                                 "random draw in a default-argument expression: evaluated at import time, outside the seeded run", file)
         for node in ast.walk(fdef):
             if isinstance(node, ast.Call):
                 path = _root(node.func)
